@@ -25,7 +25,7 @@ import os
 
 import common
 from common import driver, sx
-from props import c15_gen
+from props import c15_gen, c15_psykal
 
 MODE = "deployed"
 
@@ -48,10 +48,16 @@ class Ctx:
         self.roots = [self.root]
         for n in self.root.walk(Node):
             self.nodes[id(n)] = (len(self.nodes), n)
-        self.N = len(self.nodes)
-        self.orig_nodes = [n for _, n in self.nodes.values()]
+        self.T = len(self.nodes)       # nodes of the tree proper
         self.discover(self.root)
         self.M = len(self.syms)
+        # the expression nodes inside the declarations (array bounds, component initialisers, initial values)
+        for _, s in sorted(self.syms.values(), key=lambda t: t[0]):
+            for n in decl_nodes(s):
+                self.nodes.setdefault(id(n), (len(self.nodes), n))
+        self.N = len(self.nodes)
+        self.next_node = 2 * self.N
+        self.orig_nodes = [n for _, n in self.nodes.values()]
         self.nsym, self.nnode = self.M, self.N
         self.orig_syms = [s for _, s in self.syms.values()]
         self.copy = None
@@ -103,6 +109,18 @@ class Ctx:
             self.ifaces[id(o)] = (900000 + self.extra, o)
         return self.ifaces[id(o)][0]
 
+    def reg_decl_nodes(self, sym):
+        """new expression objects in the declaration of `sym` (after an edit) get new identities"""
+        for n in decl_nodes(sym):
+            if id(n) not in self.nodes:
+                self.nodes[id(n)] = (self.next_node, n)
+                self.next_node += 1
+
+    def decl(self, sym):
+        """[links, datatype expression forest, initial value forest] of a symbol in the model's format"""
+        return [[self.sid(d) for d in sym_links(sym)], [self.tree(n) for n in bounds_roots(sym)],
+                [self.tree(n) for n in init_roots(sym)]]
+
     def nid(self, node):
         if id(node) not in self.nodes:
             self.extra += 1
@@ -147,14 +165,14 @@ class Ctx:
         recs = {}
 
         def rec(s):
-            return [self.name_id(s.name), [self.sid(d) for d in sym_deps(s)], self.iid(s), fresh_iface(s)]
+            return [self.name_id(s.name)] + self.decl(s) + [self.iid(s), fresh_iface(s)]
         for i, s in list(self.syms.values()):
             recs[i] = rec(s)
         # dependencies may have registered unknown objects
         for i, s in list(self.syms.values()):
             if i not in recs:
                 recs[i] = rec(s)
-        table = [recs.get(i, [0, [], 0, 0]) for i in range(self.nsym)]
+        table = [recs.get(i, [0, [], [], [], 0, 0]) for i in range(self.nsym)]
         stray = sorted(i for i in recs if i >= self.nsym)
         acc = {i: access_of(o) for i, o in self.ifaces.values()}
         stray += sorted(900000 + i for i in acc if i >= self.nif)
@@ -213,46 +231,77 @@ def expr_syms(expr):
     return out
 
 
-def type_syms(dt):
-    from psyclone.psyir.symbols import (DataTypeSymbol, DataSymbol, ScalarType, ArrayType, StructureType,
-                                        UnsupportedFortranType)
+def type_links(dt):
+    """the symbols a datatype refers to directly (not through an expression node)"""
+    from psyclone.psyir.symbols import DataTypeSymbol, DataSymbol, ScalarType, ArrayType, StructureType
     if isinstance(dt, DataTypeSymbol):
         return [dt]
     if isinstance(dt, ScalarType):
         return [dt.precision] if isinstance(dt.precision, DataSymbol) else []
     if isinstance(dt, ArrayType):
-        out = type_syms(dt.datatype)
-        if isinstance(dt.precision, DataSymbol) and dt.precision not in out:
+        out = type_links(dt.datatype)
+        if isinstance(dt.precision, DataSymbol) and not any(dt.precision is x for x in out):
             out.append(dt.precision)
-        for dim in dt._shape:   # pylint: disable=protected-access
-            if isinstance(dim, ArrayType.ArrayBounds):
-                out += expr_syms(dim.lower) + expr_syms(dim.upper)
         return out
     if isinstance(dt, StructureType):
         out = []
         for c in dt.components.values():
-            out += type_syms(c.datatype)
-            if c.initial_value is not None:
-                out += expr_syms(c.initial_value)
+            out += type_links(c.datatype)
         return out
-    if isinstance(dt, UnsupportedFortranType):
-        return []     # written from its text; partial_datatype is not used by the writer
     return []
 
 
-def sym_deps(sym):
-    """the symbols that the declaration of `sym` uses: datatype, initial value, interface"""
-    from psyclone.psyir.symbols import (DataSymbol, ImportInterface, GenericInterfaceSymbol, DataTypeSymbol)
+def type_roots(dt):
+    """the root expression nodes held by a datatype object: array bounds, default initialisers of components"""
+    from psyclone.psyir.symbols import ArrayType, StructureType, DataType
+    out = []
+    if isinstance(dt, ArrayType):
+        if isinstance(dt.datatype, DataType):
+            out += type_roots(dt.datatype)
+        for dim in dt._shape:   # pylint: disable=protected-access
+            if isinstance(dim, ArrayType.ArrayBounds):
+                out += [dim.lower, dim.upper]
+    elif isinstance(dt, StructureType):
+        for c in dt.components.values():
+            if isinstance(c.datatype, DataType):
+                out += type_roots(c.datatype)
+            if c.initial_value is not None:
+                out.append(c.initial_value)
+    return out
+
+
+def sym_links(sym):
+    from psyclone.psyir.symbols import ImportInterface, GenericInterfaceSymbol, DataTypeSymbol
     out = []
     dt = getattr(sym, "datatype", None)
     if dt is not None and not (isinstance(sym, DataTypeSymbol) and dt is sym):
-        out += type_syms(dt)
-    if isinstance(sym, DataSymbol) and sym.initial_value is not None:
-        out += expr_syms(sym.initial_value)
+        out += type_links(dt)
     if isinstance(sym.interface, ImportInterface):
         out.append(sym.interface.container_symbol)
     if isinstance(sym, GenericInterfaceSymbol):
         out += [r.symbol for r in sym.routines]
+    return out
+
+
+def bounds_roots(sym):
+    from psyclone.psyir.symbols import DataType
+    dt = getattr(sym, "datatype", None)
+    return type_roots(dt) if isinstance(dt, DataType) else []
+
+
+def init_roots(sym):
+    from psyclone.psyir.symbols import DataSymbol
+    if isinstance(sym, DataSymbol) and sym.initial_value is not None:
+        return [sym.initial_value]
+    return []
+
+
+def sym_deps(sym):
+    """the symbols that the declaration of `sym` uses: direct links (kind, type symbol, import container,
+    generic-interface routines), then those used by the datatype's expressions, then by the initial value"""
+    out = sym_links(sym)
+    for n in bounds_roots(sym) + init_roots(sym):
+        out += expr_syms(n)
     return out
 
 
@@ -309,36 +358,12 @@ def define_type(root, tw):
     tab.new_symbol(tw[2] + "_vs", symbol_type=DataSymbol, datatype=ArrayType(ts, [Reference(m)]))
 
 
-def type_nodes(dt):
-    """the PSyIR expression nodes held by a datatype (array bounds, component initialisers)"""
-    from psyclone.psyir.nodes import Node
-    from psyclone.psyir.symbols import ArrayType, StructureType, DataType
-    out = []
-    if isinstance(dt, ArrayType):
-        if isinstance(dt.datatype, DataType):
-            out += type_nodes(dt.datatype)
-        for dim in dt._shape:   # pylint: disable=protected-access
-            if isinstance(dim, ArrayType.ArrayBounds):
-                out += dim.lower.walk(Node) + dim.upper.walk(Node)
-    elif isinstance(dt, StructureType):
-        for c in dt.components.values():
-            if isinstance(c.datatype, DataType):
-                out += type_nodes(c.datatype)
-            if c.initial_value is not None:
-                out += c.initial_value.walk(Node)
-    return out
-
-
 def decl_nodes(sym):
-    """the expression nodes that belong to the declaration of a symbol (datatype and initial value)"""
+    """the expression nodes that belong to the declaration of a symbol (datatype, then initial value), pre-order"""
     from psyclone.psyir.nodes import Node
-    from psyclone.psyir.symbols import DataSymbol, DataType
     out = []
-    dt = getattr(sym, "datatype", None)
-    if isinstance(dt, DataType):
-        out += type_nodes(dt)
-    if isinstance(sym, DataSymbol) and sym.initial_value is not None:
-        out += sym.initial_value.walk(Node)
+    for n in bounds_roots(sym) + init_roots(sym):
+        out += n.walk(Node)
     return out
 
 
@@ -400,6 +425,9 @@ def do_copy(ctx, r):
                     ctx.syms[id(s)] = (ctx.syms[id(o)][0] + ctx.M, s)
                     if id(s.interface) not in ctx.ifaces and id(o.interface) in ctx.ifaces:
                         ctx.ifaces[id(s.interface)] = (ctx.ifaces[id(o.interface)][0] + ctx.F, s.interface)
+                    for x, y in zip(decl_nodes(o), decl_nodes(s)):
+                        if id(y) not in ctx.nodes and id(x) in ctx.nodes:
+                            ctx.nodes[id(y)] = (ctx.nodes[id(x)][0] + ctx.N, y)
     ctx.nsym, ctx.nnode, ctx.nif = 2 * ctx.M, 2 * ctx.N, 2 * ctx.F
     ctx.copy_nodes = cn
     ctx.sub_owned = [s for n in node.walk(ScopingNode) for s in n.symbol_table.symbols]
@@ -554,11 +582,32 @@ def apply_real(ctx, ed):
             s = ctx.sym_by(ed[1])
             o = owner_table(ctx, s)
             o.symbol_table.rename_symbol(s, ed[2])
-            return ["rename", ctx.nodes[id(o)][0], ed[1], ctx.name_id(ed[2])]
+            return [["rename", ctx.nodes[id(o)][0], ed[1], ctx.name_id(ed[2])]]
         if ed[0] == "setdeps":
             s = ctx.sym_by(ed[1])
             s.datatype = mk_type(ctx, ed[2], ed[3])
-            return ["setdeps", ed[1], [ctx.sid(d) for d in sym_deps(s)]]
+            ctx.reg_decl_nodes(s)
+            return [["setdecl", ed[1]] + ctx.decl(s)]
+        if ed[0] == "setinit":
+            from psyclone.psyir.nodes import Reference, Literal, BinaryOperation
+            from psyclone.psyir.symbols import INTEGER_TYPE
+            s = ctx.sym_by(ed[1])
+            s.initial_value = BinaryOperation.create(BinaryOperation.Operator.ADD, Reference(ctx.sym_by(ed[2])),
+                                                     Literal(str(ed[3]), INTEGER_TYPE))
+            ctx.reg_decl_nodes(s)
+            return [["setdecl", ed[1]] + ctx.decl(s)]
+        if ed[0] == "specialise":
+            s = ctx.sym_by(ed[1])
+            s.specialise(DataSymbol, datatype=mk_type(ctx, ed[2], ed[3]))
+            ctx.reg_decl_nodes(s)
+            return [["setdecl", ed[1]] + ctx.decl(s), ["setfresh", ed[1], fresh_iface(s)]]
+        if ed[0] == "setiface":
+            from psyclone.psyir.symbols import ArgumentInterface
+            s = ctx.sym_by(ed[1])
+            s.interface = ArgumentInterface(ArgumentInterface.Access(ed[2]))
+            ctx.ifaces[id(s.interface)] = (ctx.nif, s.interface)
+            ctx.nif += 1
+            return [["setiface", ed[1], ed[2]]]
         if ed[0] == "addsym":
             p = ctx.node_by(ed[1])
             if ed[5] == "generic":
@@ -569,30 +618,31 @@ def apply_real(ctx, ed):
             ctx.nsym += 1
             ctx.ifaces[id(s.interface)] = (ctx.nif, s.interface)
             ctx.nif += 1
-            return ["addsym", ed[1], ctx.name_id(s.name), [ctx.sid(d) for d in sym_deps(s)], fresh_iface(s)]
+            ctx.reg_decl_nodes(s)
+            return [["addsym", ed[1], ctx.name_id(s.name)] + ctx.decl(s) + [fresh_iface(s)]]
         if ed[0] == "setaccess":
             from psyclone.psyir.symbols import ArgumentInterface
             s = ctx.sym_by(ed[1])
             s.interface.access = ArgumentInterface.Access(ed[2])
-            return ["setaccess", ctx.iid(s), ed[2]]
+            return [["setaccess", ctx.iid(s), ed[2]]]
         if ed[0] == "removesym":
             p, s = ctx.node_by(ed[1]), ctx.sym_by(ed[2])
             p.symbol_table.remove(s)
-            return ["removesym", ed[1], ed[2]]
+            return [["removesym", ed[1], ed[2]]]
         if ed[0] == "setsym":
             ctx.node_by(ed[1]).symbol = ctx.sym_by(ed[2])
-            return ["setsym", ed[1], ed[2]]
+            return [["setsym", ed[1], ed[2]]]
         if ed[0] == "detach":
             x = ctx.node_by(ed[1])
             if x.parent is not None:
                 x.detach()
                 ctx.roots.append(x)
-            return ["detach", ed[1]]
+            return [["detach", ed[1]]]
         if ed[0] == "attach":
             p, x = ctx.node_by(ed[1]), ctx.node_by(ed[3])
             p.children.insert(ed[2], x)
             ctx.roots = [r for r in ctx.roots if r is not x]
-            return ["attach", ed[1], ed[2], ed[3]]
+            return [["attach", ed[1], ed[2], ed[3]]]
     except Exception as e:   # pylint: disable=broad-except
         ctx.notes.append(f"{ed[0]} refused: {type(e).__name__}")
         return None
@@ -623,16 +673,35 @@ def gen_edit(ctx, rng, side, counter):
         return [i for i, s in usable if isinstance(s, DataSymbol) and isinstance(s.datatype, ScalarType)
                 and s.datatype.intrinsic == ScalarType.Intrinsic.INTEGER]
 
-    kindc = rng.choice(["rename"] * 5 + ["setdeps"] * 2 + ["addsym"] * 2 + ["removesym", "setsym", "detach",
-                                                                           "detach", "attach", "attach"])
-    if rng.random() < 0.03:
-        # known finding C15-shared-interface: the intent of an argument (interface objects are shared)
+    kindc = rng.choice(["rename"] * 5 + ["setdeps"] * 2 + ["addsym"] * 2 + ["removesym", "setsym", "setsym", "detach",
+                                                                           "detach", "attach", "attach", "setinit",
+                                                                           "specialise", "setiface", "setaccess"])
+    if kindc in ("setiface", "setaccess"):
+        # the interface object of an argument is replaced / its access is changed
         args = [(i, s) for i, s in usable if s.is_argument and owner_table(ctx, s) is not None
-                and (side == "orig" or in_side_sym(i))]
+                and (in_side_sym(i) if kindc == "setiface" or side == "copy" else True)]
         if args:
             i, s = rng.choice(args)
             other_acc = [a for a in (1, 2, 3, 4) if a != access_of(s.interface)]
-            return ["setaccess", i, rng.choice(other_acc)]
+            return [kindc, i, rng.choice(other_acc)]
+    if kindc == "setinit":
+        c = [(i, s) for i, s in syms if isinstance(s, DataSymbol) and s.is_constant and s.initial_value is not None
+             and isinstance(s.datatype, ScalarType) and s.datatype.intrinsic == ScalarType.Intrinsic.INTEGER]
+        ints = [i for i in int_scalars()]
+        if c and ints:
+            i, s = rng.choice(c)
+            cand = [j for j in ints if j != i]
+            if cand:
+                return ["setinit", i, rng.choice(cand), rng.randint(1, 9)]
+    if kindc == "specialise":
+        # pylint: disable=unidiomatic-typecheck
+        c = [(i, s) for i, s in syms if type(s) is Symbol and not s.is_import]
+        ints = int_scalars()
+        if c:
+            i, s = rng.choice(c)
+            k = rng.choice(ints) if ints and rng.random() < 0.6 else -1
+            b = [rng.choice(ints) for _ in range(rng.randint(0, 2))] if ints else []
+            return ["specialise", i, k, b]
     if kindc == "rename" and syms:
         # prefer symbols that other declarations depend on (kinds, bounds, initial values)
         used = {id(d) for _, s in ctx.syms.values() for d in sym_deps(s)}
@@ -670,6 +739,7 @@ def gen_edit(ctx, rng, side, counter):
             p, i = rng.choice(c)
             return ["removesym", p, i]
     if kindc == "setsym":
+        # References of the trees and References inside declarations (array bounds, initialisers)
         refs = [(i, n) for i, n in nodes if type(n) is Reference and not isinstance(n.parent, Call)]
         tgt = [i for i, s in usable if isinstance(s, DataSymbol) and isinstance(s.datatype, ScalarType)]
         if refs and tgt:
@@ -708,7 +778,7 @@ def run_case(src, tweaks, r, side, edits=None, rng=None, nedits=0, want_model=Tr
     ctx = Ctx(src, tweaks)
     if frontend_broken(ctx.root):
         return {"status": "frontend-broken"}
-    r = r % ctx.N
+    r = r % ctx.T
     out["r"] = r
     out["node_class"] = type(ctx.node_by(r)).__name__
     w0, _ = ctx.export()
@@ -744,7 +814,7 @@ def run_case(src, tweaks, r, side, edits=None, rng=None, nedits=0, want_model=Tr
         if ed[0] == "addsym":
             ctx.added.setdefault(side, set()).add(before_n)
         applied.append(ed)
-        model_edits.append(me)
+        model_edits += me
     after = write(other)
     w2, stray2 = ctx.export()
     out["real2"] = sx(w2)
@@ -821,6 +891,9 @@ CORPUS = [
      "      integer :: k = n0 + 1\n      real(kind=wp) :: w = 2.0_wp\n    end type pt\n    type(pt) :: p\n"
      "    x = x + p%k + p%w\n  end subroutine sub\nend module demo_mod\n",
      [], "Routine", "copy", [["rename", "n0", "n_renamed"]]),
+    # interface objects: the intent of an argument of the copied routine is changed in the original
+    ("module mm\ncontains\n  function f(n) result(r)\n    integer, intent(in) :: n\n    real :: r\n    r = n\n"
+     "  end function f\nend module mm\n", [], "Routine", "orig", [["setaccess", "n", 3]]),
     ("module demo_mod\n  implicit none\n  integer, parameter :: wp = 8\ncontains\n  subroutine sub(x)\n"
      "    real(kind=wp), intent(inout) :: x\n    integer, parameter :: n0 = 4\n    type :: pt\n"
      "      integer :: k = n0 + 1\n      real(kind=wp) :: w = 2.0_wp\n    end type pt\n    type(pt) :: p\n"
@@ -840,6 +913,9 @@ def corpus_case(entry):
         if ed[0] == "rename":
             s = next(s for _, s in ctx.syms.values() if s.name == ed[1])
             edits.append(["rename", ctx.syms[id(s)][0] + (ctx.M if side == "copy" else 0), ed[2]])
+        if ed[0] == "setaccess":
+            s = next(s for _, s in ctx.syms.values() if s.name == ed[1])
+            edits.append(["setaccess", ctx.syms[id(s)][0] + (ctx.M if side == "copy" else 0), ed[2]])
     del node
     return src, tweaks, r, side, edits
 
@@ -859,9 +935,10 @@ def run(chk):
         "(names of table symbols and of the symbols their datatypes, initial values and interfaces use): C15.view",
         "node attributes other than symbol/variable/return_symbol/literal kind hold no symbols (PSyKAl nodes excluded)",
         "UnsupportedFortranType is written from its text; its partial_datatype is not followed",
-        "the model has no identities for the expression nodes INSIDE datatypes (array bounds, initial values, default "
-        "initialisers of derived-type components): their symbols are the model's `deps` (re-mapped by copy), their "
-        "node-disjointness between original and copy is checked on the real objects only (clause 'disjoint')",
+        "expression nodes inside declarations (array bounds, default initialisers of derived-type components, "
+        "initial values) have identities in the model (World.bounds / World.init) and are part of the exported object graph",
+        "second family (PSyKAl invoke schedules of LFRic and GOcean) is checked on the real objects only; the model "
+        "abstracts the helper objects held by kernel nodes as NodeRec.attr (shared by copy.copy)",
         "edits of the original may rename/retype only symbols declared in the copied scopes, unless the copied "
         "subtree uses no outer-scope symbol (outer-scope symbols are shared with the copy by design)",
     ]
@@ -871,7 +948,7 @@ def run(chk):
         "hold symbols) and the edit interpreter; FortranWriter as the observer of 'written code'",
         "C15.view as the abstraction of written code"]
     chk.lean()
-    n_cases = 2500 if chk.tier == "thorough" else 200
+    n_cases = 2500 if chk.tier == "thorough" else 170
     stats = {"node_class": {}, "side": {}, "edits": {}, "closed": 0, "frontend_broken": 0, "refused": {},
              "subtree_nodes_max": 0, "copy_failures": 0}
     shared = {}
@@ -935,7 +1012,16 @@ def run(chk):
         if len(rest) == len(eds):
             return False
         res2 = run_case(src, tweaks, res["r"], side, edits=rest, want_model=False)
-        return res2["status"] == "ok"
+        if res2["status"] != "ok":
+            return False
+        # ... and only if the committed model reproduces the change (it does not once the interface
+        # repair is part of the deployed mode: then this is a new failure of the real code)
+        if "line" not in res:
+            return False
+        mm = split_model(driver("C15", [res["line"]])[0])
+        if mm is None:
+            return False
+        return (mm[2] if side == "orig" else mm[3]) == "0"
 
     # corpus first
     for entry in CORPUS:
@@ -964,7 +1050,7 @@ def run(chk):
             raise common.Infra(f"generated program rejected by the frontend: {type(e).__name__}: {e}\n{src}")
         # node choice biased towards scopes (routines, containers, loop bodies)
         from psyclone.psyir.nodes import ScopingNode, Routine, Container
-        cand = list(probe.nodes.values())
+        cand = [(i, n) for i, n in probe.nodes.values() if i < probe.T]
         c = rng.random()
         if c < 0.35:
             pick = [i for i, n in cand if isinstance(n, (Routine, Container))]
@@ -1000,10 +1086,25 @@ def run(chk):
                 case, (mm[0] if which == "after copy" else mm[1]) if mm else mo[:300],
                 res["real1"] if which == "after copy" else res["real2"])
     stats["shared_by_copy"] = dict(sorted(shared.items(), key=lambda kv: -kv[1])[:40])
+    # second family: PSyKAl invoke schedules (LFRic, GOcean), real objects only
+    known_classes = {e["id"][len("C15-"):] for e in known if e["id"].startswith("C15-psykal-")}
+    stats["psykal"] = c15_psykal.run_family(chk, 300 if chk.tier == "thorough" else 24, known_classes)
     chk.cov["distribution"] = stats
     # (d) known findings
     for e in known:
         w = e.get("witness", {})
+        if w.get("family") == "psykal":
+            import random
+            hit = False
+            for sd in range(1, 5):
+                res = c15_psykal.run_one(w["api"], w["file"], w["invoke"], w["node"], w["edited_side"], 4,
+                                         random.Random(sd))
+                if res and any(c == w["class"] for c, _ in res["fails"]):
+                    hit = True
+                    break
+            if hit:
+                chk.known(e["what"])
+            continue
         try:
             res = run_case(w["source"], w.get("tweaks", []), w["node"], w["edited_side"], edits=w["edits"],
                            want_model=False)
@@ -1033,6 +1134,8 @@ def split_model(mo):
 
 
 def replay(payload):
+    if payload.get("family") == "psykal":
+        return c15_psykal.replay_psykal(payload)
     if "source" not in payload:
         rc = 0
         for b in payload.get("broken", []):
